@@ -125,6 +125,29 @@ class TermHooks(Hooks):
             return args[0]
         if isinstance(func, Ext) and func.name == 'builtins.bool' and args and isinstance(args[0], Term):
             return Term('bool', args[0])
+        if isinstance(func, Ext) and func.name in ('builtins.max', 'builtins.min') and args \
+                and any(isinstance(a, Term) for a in args):
+            return Term(func.name.split('.')[-1], *args)
+        if isinstance(func, Ext) and func.name == 'builtins.isinstance' and len(args) == 2 and isinstance(args[0], Term):
+            return TOP                     # what kind of array the caller hands over is not known: both ways
+        return NOT_HANDLED
+
+    def subscript(self, it, obj, idx, node, env):
+        if isinstance(obj, Term):
+            return Term('part', obj, repr(idx))      # a slice / element of an uninterpreted vector
+        return NOT_HANDLED
+
+    def attr(self, it, obj, name, node):
+        if isinstance(obj, Term) and name in ('ndim', 'shape', 'size', 'dtype'):
+            return TOP
+        if isinstance(obj, Obj) and name in ('d', 'n', 'k') and name not in obj.fields:
+            return Term(name)              # parameters of the code: uninterpreted numbers
+        return NOT_HANDLED
+
+    def compare(self, it, op, a, b, node):
+        # an order comparison that involves an uninterpreted quantity (a weight, a count): unknown, both ways
+        if isinstance(op, (ast.Lt, ast.LtE, ast.Gt, ast.GtE)) and (isinstance(a, Term) or isinstance(b, Term)):
+            return TOP
         return NOT_HANDLED
 
 
